@@ -244,7 +244,7 @@ Proof.
   - apply xbind_ok in H as (te & st1 & Hte & H). unfold resolve_type_m in Hte.
     destruct (lookup r e) as [te'|] eqn:Le; [|discriminate Hte]. apply xret_ok in Hte. subst te'.
     destruct (len <=? 32)%N; [|apply xret_ok in H; discriminate H].
-    eapply IH; eauto.
+    exact (IH e te st1 st' Le H).
   - clear D. revert st H. induction l as [|i l IHl]; intros st H; [reflexivity|].
     apply xbind_ok in H as (te & st1 & Hte & H). unfold resolve_type_m in Hte.
     destruct (lookup r i) as [te'|] eqn:Le; [|discriminate Hte]. apply xret_ok in Hte. subst te'.
@@ -254,7 +254,7 @@ Proof.
   - apply xret_ok in H. destruct p; cbn in H; try discriminate H; reflexivity.
   - apply xbind_ok in H as (te & st1 & Hte & H). unfold resolve_type_m in Hte.
     destruct (lookup r e) as [te'|] eqn:Le; [|discriminate Hte]. apply xret_ok in Hte. subst te'.
-    eapply IH; eauto.
+    exact (IH e te st1 st' Le H).
   - apply xret_ok in H. discriminate H.
 Qed.
 
